@@ -238,5 +238,233 @@ class CoordParsePrint(Harness):
         back = native.unhx(n[1][0]) if n[0] == 'ok' else n
         return back != s, 'print(parse(%r))=%r' % (s, back)
 
+# ---------------------------------------------------------------- oracle-side symbolic printers (fresh variables, linear constraints)
+def sym_letters(ctx, c, tag):
+    """code points of the bijective base-26 numeral of symbolic column c (1..16384): forks on the letter count"""
+    if isinstance(c, int): return [ord(x) for x in letters_of(c)]
+    n = 1 if ctx.branch(c <= 26) else (2 if ctx.branch(c <= 702) else 3)
+    L = [ctx.fresh_int('L' + tag, 65, 90) for _ in range(n)]
+    ctx.define(bij_value(L) == c)
+    return L
+def sym_digits(ctx, r, tag, maxd=7):
+    if isinstance(r, int): return [ord(x) for x in str(r)]
+    for nd in range(1, maxd + 1):
+        if ctx.branch(r < 10 ** nd):
+            D = [ctx.fresh_int('D' + tag, 48, 57) for _ in range(nd)]
+            ctx.define(digits_value(D) == r)
+            return D
+    raise Unsupported('row with more than %d digits' % maxd)
+def sym_coord(ctx, c, r, lc, lr, tag):
+    out = []
+    if c is not None: out += ([36] if lc else []) + sym_letters(ctx, c, tag)
+    if r is not None: out += ([36] if lr else []) + sym_digits(ctx, r, tag)
+    return out
+def conc(model_eval, chars): return ''.join(chr(model_eval(c)) for c in chars)
+
+SHAPES = ('cell', 'cell:cell', 'col:col', 'row:row')
+class RangeCodec(Harness):
+    name = 'range.parse_print'; property_id = 'C17'
+    doc = 'Range::set_range(text).get_range() == text, corner getters and get_start_and_end_point(text) equal the corners, for cell, cell:cell, whole-column and whole-row ranges with symbolic corners'
+    entry = ['structs::range::Range::set_range', 'structs::range::Range::get_range', 'helper::range::get_start_and_end_point']
+    def __init__(self, tier):
+        self.tier = tier
+        self.bounds = {'shapes': list(SHAPES), 'column': [1, MAXC], 'row': [1, MAXR],
+                       'locks': 'all combinations per corner' if tier == 'thorough' else 'the same 4 combinations on both corners'}
+    def build(self, ctx):
+        sh = ctx.sym_int('shape', 0, 3)
+        shape = next(k for k in range(4) if ctx.branch(sh == k))
+        c1 = ctx.sym_int('c1', 1, MAXC); c2 = ctx.sym_int('c2', 1, MAXC); r1 = ctx.sym_int('r1', 1, MAXR); r2 = ctx.sym_int('r2', 1, MAXR)
+        ctx.assume(z3.And(c1 <= c2, r1 <= r2))
+        lc1 = ctx.branch(ctx.sym_bool('lc1')); lr1 = ctx.branch(ctx.sym_bool('lr1'))
+        if self.tier == 'thorough': lc2 = ctx.branch(ctx.sym_bool('lc2')); lr2 = ctx.branch(ctx.sym_bool('lr2'))
+        else: lc2, lr2 = lc1, lr1
+        name = SHAPES[shape]
+        if name == 'cell': corners = [(c1, r1, lc1, lr1)]
+        elif name == 'cell:cell': corners = [(c1, r1, lc1, lr1), (c2, r2, lc2, lr2)]
+        elif name == 'col:col': corners = [(c1, None, lc1, False), (c2, None, lc2, False)]
+        else: corners = [(None, r1, False, lr1), (None, r2, False, lr2)]
+        text = []
+        for i, (c, r, a, b) in enumerate(corners):
+            if i: text.append(58)
+            text += sym_coord(ctx, c, r, a, b, str(i))
+        return name, corners, text
+    def run(self, it, ctx, res):
+        name, corners, text = self.build(ctx)
+        info = {'shape': name, 'len': len(text)}
+        try:
+            rng = it.call('<structs::range::Range as std::default::Default>::default', [])
+            cell = Box_(rng)
+            it.call('structs::range::Range::set_range::<&str>', [Ref(cell), sref(SStr(text))])
+            back = it.call('structs::range::Range::get_range', [Ref(cell)])
+            # get_start_and_end_point refuses whole-row/column ranges with an explicit assert ("Non-standard range."):
+            # a refusal is not a wrong corner, so the corner obligation is stated for cell and cell:cell only
+            pts = it.call('helper::range::get_start_and_end_point', [sref(SStr(text))]) if name in ('cell', 'cell:cell') else None
+        except Panic as e:
+            self.fail(ctx, res, 'no-panic', str(e), info=info); return
+        self.oblige(ctx, res, 'get_range(set_range(s))==s', chars_eq(back.chars, text), info=info)
+        # corners stored in the struct
+        st = cell.v.fields       # start_col, start_row, end_col, end_row : Option<{num,is_lock}>
+        exp = []
+        c0 = corners[0]; c1_ = corners[1] if len(corners) > 1 else None
+        def opt_is(o, num, lock):
+            if num is None: return o.variant == 0
+            if o.variant != 1: return False
+            return z3.And(o.fields[0].fields[0] == num, bool_eq(o.fields[0].fields[1], lock))
+        conds = [opt_is(st[0], c0[0], c0[2]), opt_is(st[1], c0[1], c0[3])]
+        if c1_: conds += [opt_is(st[2], c1_[0], c1_[2]), opt_is(st[3], c1_[1], c1_[3])]
+        else: conds += [st[2].variant == 0, st[3].variant == 0]
+        prop = False if any(c is False for c in conds) else z3.And(*[c for c in conds if c is not True])
+        self.oblige(ctx, res, 'stored-corners', prop, info=info)
+        if pts is None: return
+        last = corners[-1]
+        e = [c0[1] if c0[1] is not None else 0, last[1] if last[1] is not None else 0, c0[0] if c0[0] is not None else 0, last[0] if last[0] is not None else 0]
+        self.oblige(ctx, res, 'get_start_and_end_point', z3.And(*[z3.IntVal(a) == b if isinstance(a, int) and isinstance(b, int) else a == b for a, b in zip(pts, e)]), info=info)
+    def validate(self, it, seed):
+        strs = ['A1', 'A1:B2', '$A$1:$B$2', 'A:B', '$A:$C', '1:2', '$1:$20', 'XFD1048576', 'C3:C3', 'AA10:AB1000']
+        nat = native.run_cases([['range_rt', s] for s in strs]); mism = []
+        for s, n in zip(strs, nat):
+            def f():
+                cell = Box_(it.call('<structs::range::Range as std::default::Default>::default', []))
+                it.call('structs::range::Range::set_range::<&str>', [Ref(cell), sref(s)])
+                pts = it.call('helper::range::get_start_and_end_point', [sref(s)]) if any(ch.isdigit() for ch in s) and any(ch.isalpha() for ch in s) else []
+                return [pstr(it.call('structs::range::Range::get_range', [Ref(cell)]))] + [str(x) for x in pts]
+            m = concrete(it, f)
+            nn = [native.unhx(n[1][0])] + n[1][1:] if n[0] == 'ok' else n
+            if m != ('ok', nn): mism.append('range_rt(%r): mir %r native %r' % (s, m, nn))
+        return len(strs), mism
+    def text_of(self, m):
+        name = SHAPES[m['shape']]
+        lc2, lr2 = (m['lc2'], m['lr2']) if 'lc2' in m else (m['lc1'], m['lr1'])
+        a = coord_str(m['c1'], m['r1'], m['lc1'], m['lr1']); b = coord_str(m['c2'], m['r2'], lc2, lr2)
+        if name == 'cell': return a
+        if name == 'cell:cell': return a + ':' + b
+        if name == 'col:col': return ('$' if m['lc1'] else '') + letters_of(m['c1']) + ':' + ('$' if lc2 else '') + letters_of(m['c2'])
+        return ('$' if m['lr1'] else '') + str(m['r1']) + ':' + ('$' if lr2 else '') + str(m['r2'])
+    def case_of(self, v):
+        t = self.text_of(v['model']); return {'show': {'range': t}, 'text': t}
+    def confirm(self, case, profile):
+        import re
+        s = case['text']
+        n = native.run_cases([['range_rt', s]], profile)[0]
+        if n[0] != 'ok': return True, 'range_rt(%r) -> %r' % (s, n)
+        back = native.unhx(n[1][0]); pts = [int(x) for x in n[1][1:5]]
+        if not pts: return back != s, 'get_range=%r' % back
+        parts = s.split(':')
+        def pc(t):
+            mm = re.fullmatch(r'\$?([A-Z]*)\$?(\d*)', t)
+            return (index_of(mm.group(1)) if mm.group(1) else 0, int(mm.group(2)) if mm.group(2) else 0)
+        a = pc(parts[0]); b = pc(parts[-1])
+        exp = [a[1], b[1], a[0], b[0]]
+        return (back != s or pts != exp), 'get_range=%r, points=%r expected %r' % (back, pts, exp)
+
+class CoordinateList(Harness):
+    name = 'range.coordinate_list'; property_id = 'C17'
+    doc = 'get_coordinate_list enumerates exactly the rectangle, row-major, for rectangles up to 3x3 anywhere in the grid'
+    bounds = {'width': [1, 3], 'height': [1, 3], 'offset': 'anywhere in the grid'}
+    entry = ['helper::range::get_coordinate_list']
+    def run(self, it, ctx, res):
+        c1 = ctx.sym_int('c1', 1, MAXC); r1 = ctx.sym_int('r1', 1, MAXR)
+        w = ctx.sym_int('w', 1, 3); h = ctx.sym_int('h', 1, 3)
+        wv = next(k for k in (1, 2, 3) if ctx.branch(w == k)); hv = next(k for k in (1, 2, 3) if ctx.branch(h == k))
+        ctx.assume(z3.And(c1 + wv - 1 <= MAXC, r1 + hv - 1 <= MAXR))
+        text = sym_coord(ctx, c1, r1, False, False, 'a') + [58] + sym_coord(ctx, c1 + wv - 1, r1 + hv - 1, False, False, 'b')
+        try: lst = it.call('helper::range::get_coordinate_list', [sref(SStr(text))])
+        except Panic as e:
+            self.fail(ctx, res, 'no-panic', str(e)); return
+        exp = [(c1 + dx, r1 + dy) for dy in range(hv) for dx in range(wv)]
+        prop = False if len(lst) != len(exp) else z3.And(*[z3.And(a[0] == e[0], a[1] == e[1]) for a, e in zip(lst, exp)])
+        self.oblige(ctx, res, 'rectangle-enumeration', prop, info={'w': wv, 'h': hv, 'n': len(lst)})
+    def case_of(self, v):
+        m = v['model']
+        t = coord_str(m['c1'], m['r1'], False, False) + ':' + coord_str(m['c1'] + m['w'] - 1, m['r1'] + m['h'] - 1, False, False)
+        return {'show': {'range': t}, 'text': t, 'rect': [m['c1'], m['r1'], m['w'], m['h']]}
+    def confirm(self, case, profile):
+        n = native.run_cases([['coord_list', case['text']]], profile)[0]
+        c1, r1, w, h = case['rect']
+        exp = [str(x) for dy in range(h) for dx in range(w) for x in (c1 + dx, r1 + dy)]
+        return (n[0] != 'ok' or n[1] != exp), 'coordinate_list(%r)=%r' % (case['text'], n)
+
+ILLEGAL = [ord(c) for c in ':\\/?*[]']
+def legal_name_chars(ctx, n, tag='n'):
+    cs = [ctx.sym_int('%s%d' % (tag, i), 32, 0x10FFFF) for i in range(n)]
+    for c in cs:
+        ctx.define(z3.Not(z3.And(c >= 0xD800, c <= 0xDFFF)), c != 127, *[c != x for x in ILLEGAL])
+    ctx.define(cs[0] != 39, cs[-1] != 39)
+    return cs
+class AddressSplitJoin(Harness):
+    name = 'address.split_join'; property_id = 'C17'
+    doc = 'split_address(join_address(name, range)) == (name, range) for every legal sheet name of 1..N symbolic characters'
+    entry = ['helper::address::split_address', 'helper::address::join_address']
+    classes = {'dquote-edge': 'sheet name that starts or ends with a double quote loses it in split_address (trim_matches of both quote kinds)'}
+    def __init__(self, tier):
+        self.maxn = 4 if tier == 'thorough' else 3
+        self.bounds = {'name_chars': [1, self.maxn], 'alphabet': 'every Unicode scalar >= U+0020 except : \\ / ? * [ ] and DEL; no apostrophe at either end', 'range': 'A1:B2 (concrete)'}
+    def run(self, it, ctx, res):
+        n = ctx.sym_int('len', 1, self.maxn)
+        n = next(k for k in range(1, self.maxn + 1) if ctx.branch(n == k))
+        cs = legal_name_chars(ctx, n)
+        rng = [ord(c) for c in 'A1:B2']
+        try:
+            j = it.call('helper::address::join_address', [sref(SStr(cs)), sref(SStr(rng))])
+            t = it.call('helper::address::split_address', [sref(SStr(j.chars))])
+        except Panic as e:
+            self.fail(ctx, res, 'no-panic', str(e)); return
+        a, b = deref_all(t[0]), deref_all(t[1])
+        prop = z3.And(chars_eq(a.chars, cs), chars_eq(b.chars, rng)) if len(a.chars) == n and len(b.chars) == len(rng) else False
+        self.oblige(ctx, res, 'split(join(n,r))==(n,r)', prop, classes=[('dquote-edge', z3.Or(cs[0] == 34, cs[-1] == 34))], info={'len': n})
+    def validate(self, it, seed):
+        strs = ['A1', 'A1:B2', 'sheet1!A1:B2', "'she!et1'!A1:B2", '\'she"et1\'!A1:B2', "'My Sheet'!$A$1", '"q"!A1', 'a!b!C3', "it's!A1", '\u00e9t\u00e9!A1', '\U0001F600!B2']
+        nat = native.run_cases([['split_addr', s] for s in strs]); mism = []
+        for s, n in zip(strs, nat):
+            m = concrete(it, lambda: [pstr(x) for x in it.call('helper::address::split_address', [sref(s)])])
+            nn = [native.unhx(x) for x in n[1]] if n[0] == 'ok' else n
+            if m != ('ok', nn): mism.append('split_address(%r): mir %r native %r' % (s, m, nn))
+        return len(strs), mism
+    def case_of(self, v):
+        m = v['model']; name = ''.join(chr(m['n%d' % i]) for i in range(m['len']))
+        return {'show': {'sheet_name': name}, 'name': name}
+    def confirm(self, case, profile):
+        n = native.run_cases([['join_split', case['name'], 'A1:B2']], profile)[0]
+        got = [native.unhx(x) for x in n[1]] if n[0] == 'ok' else n
+        return got != [case['name'], 'A1:B2'], 'split_address(join_address(%r,"A1:B2"))=%r' % (case['name'], got)
+
+class AddressStruct(Harness):
+    name = 'address.struct'; property_id = 'C17'
+    doc = 'Address{sheet_name,range}.get_address() re-parsed by Address::set_address gives the same sheet name and range (both quoting patterns)'
+    entry = ['structs::address::Address::set_address', 'structs::address::Address::get_address_crate']
+    classes = {'dquote-edge': AddressSplitJoin.classes['dquote-edge'],
+               'ptn2-apostrophe': "get_address_ptn2 doubles an apostrophe inside the quoted sheet name and set_address/split_address never undoes the doubling"}
+    def __init__(self, tier):
+        self.maxn = 4 if tier == "thorough" else 3
+        self.bounds = {'name_chars': [1, self.maxn], 'alphabet': AddressSplitJoin(tier).bounds['alphabet'], 'range': 'B2:C3 (concrete)', 'patterns': ['get_address', 'get_address_ptn2']}
+    def run(self, it, ctx, res):
+        n = ctx.sym_int('len', 1, self.maxn)
+        n = next(k for k in range(1, self.maxn + 1) if ctx.branch(n == k))
+        ptn2 = ctx.branch(ctx.sym_bool('ptn2'))
+        cs = legal_name_chars(ctx, n)
+        rng = [ord(c) for c in 'B2:C3']
+        try:
+            a = Box_(it.call('<structs::address::Address as std::default::Default>::default', []))
+            it.call('structs::address::Address::set_sheet_name::<&str>', [Ref(a), sref(SStr(cs))])
+            it.call('structs::range::Range::set_range::<&str>', [it.call('structs::address::Address::get_range_mut', [Ref(a)]), sref(SStr(rng))])
+            text = it.call('structs::address::Address::get_address_crate', [Ref(a), ptn2])
+            b = Box_(it.call('<structs::address::Address as std::default::Default>::default', []))
+            it.call('structs::address::Address::set_address::<&str>', [Ref(b), sref(SStr(text.chars))])
+            name2 = deref_all(it.call('structs::address::Address::get_sheet_name', [Ref(b)]))
+            rng2 = it.call('structs::range::Range::get_range', [it.call('structs::address::Address::get_range', [Ref(b)])])
+        except Panic as e:
+            self.fail(ctx, res, 'no-panic', str(e), info={'len': n, 'ptn2': ptn2}); return
+        prop = z3.And(chars_eq(name2.chars, cs), chars_eq(rng2.chars, rng)) if len(name2.chars) == n and len(rng2.chars) == len(rng) else False
+        classes = [('dquote-edge', z3.Or(cs[0] == 34, cs[-1] == 34))]
+        if ptn2: classes.append(('ptn2-apostrophe', z3.Or(*[c == 39 for c in cs])))
+        self.oblige(ctx, res, 'set_address(get_address())', prop, classes=classes, info={'len': n, 'ptn2': ptn2})
+    def case_of(self, v):
+        m = v['model']; name = ''.join(chr(m['n%d' % i]) for i in range(m['len']))
+        return {'show': {'sheet_name': name, 'ptn2': bool(m['ptn2'])}, 'name': name, 'ptn2': bool(m['ptn2'])}
+    def confirm(self, case, profile):
+        n = native.run_cases([['addr_struct', case['name'], 'B2:C3', case['ptn2']]], profile)[0]
+        got = [native.unhx(x) for x in n[1]] if n[0] == 'ok' else n
+        return (n[0] != 'ok' or got[1:] != [case['name'], 'B2:C3']), 'text=%r reparsed=%r' % (got[0] if n[0] == 'ok' else None, got[1:] if n[0] == 'ok' else n)
+
 def harnesses(tier):
-    return [LettersFromIndex(), LettersToIndex(), CoordPrintParse(), CoordParsePrint()]
+    return [LettersFromIndex(), LettersToIndex(), CoordPrintParse(), CoordParsePrint(), RangeCodec(tier), CoordinateList(), AddressSplitJoin(tier), AddressStruct(tier)]
